@@ -5,7 +5,8 @@
    PARTIAL BY CONSTRUCTION: the statements are about the subset model of JSON-LD, which is
    tied to json-gold / MerklizeJSONLD only differentially (JsonLD/Run.v, every run). *)
 From Coq Require Import ZArith List String.
-From GSP Require Import Base.Prelude RDF.Model JsonLD.Model JsonLD.Resolvers JsonLD.Theory JsonLD.Sim.
+From GSP Require Import Base.Prelude Value.Model RDF.Model Merklizer.Model JsonLD.Model JsonLD.Resolvers JsonLD.Theory
+  JsonLD.Sim JsonLD.KeyModel JsonLD.KeyTheory.
 Import ListNotations.
 Open Scope string_scope.
 
@@ -29,6 +30,64 @@ Theorem C11_doc_vs_store :
   p = p' /\ exists f, In f fs /\ f_path f = p /\ f_dt f = dt /\ f_val f = v.
 Proof. exact doc_vs_store. Qed.
 Print Assumptions C11_doc_vs_store.
+
+(* ---- tree keys (Path.MtEntry): Path record and hash_path of Merklizer/Model.v, resolver results
+   as Path values in JsonLD/KeyModel.v ---- *)
+
+(* every path a resolver returns carries the hasher of the Options it was called on *)
+Theorem C11_resolver_hasher :
+  forall Hd o ld doc cj pi ty field p,
+  (path_from_document_p Hd o ld doc pi = Ok p \/
+   path_from_context_p Hd o ld cj pi = Ok p \/
+   field_path_from_context_p Hd o ld cj ty field = Ok p) ->
+  p_hasher p = Some (get_hasher Hd o).
+Proof. exact resolver_paths_carry_options_hasher. Qed.
+Print Assumptions C11_resolver_hasher.
+
+(* the key the API reports is a function of (parts, hasher) only ... *)
+Theorem C11_key_determined :
+  forall Hd p q,
+  p_parts p = p_parts q ->
+  hasher_or Hd (p_hasher p) = hasher_or Hd (p_hasher q) ->
+  path_mt_entry Hd p = path_mt_entry Hd q.
+Proof. exact key_determined. Qed.
+Print Assumptions C11_key_determined.
+
+(* ... and of the hasher only through HashBytes on the string parts and Hash *)
+Theorem C11_key_determined_by_primitives :
+  forall H1 H2 ps,
+  (forall s, In (PStr s) ps -> h_bytes H1 s = h_bytes H2 s) ->
+  (forall ks, h_hash H1 ks = h_hash H2 ks) ->
+  hash_path H1 ps = hash_path H2 ps.
+Proof. exact key_determined_by_primitives. Qed.
+Print Assumptions C11_key_determined_by_primitives.
+
+(* schema-side path (type prefix restored with Prepend) and document-side path: equal parts,
+   same Options => equal tree keys; likewise the key of the stored entry *)
+Theorem C11_keys_agree :
+  forall Hd o ld cj doc ty field pi pre ps pd,
+  field_path_from_context_p Hd o ld cj ty field = Ok ps ->
+  path_from_document_p Hd o ld doc pi = Ok pd ->
+  (pre ++ p_parts ps)%list = p_parts pd ->
+  path_mt_entry Hd (path_prepend pre ps) = path_mt_entry Hd pd.
+Proof. exact schema_and_document_keys_agree. Qed.
+Print Assumptions C11_keys_agree.
+
+Theorem C11_stored_key_agrees :
+  forall Hd o ld doc pi pd pe,
+  path_from_document_p Hd o ld doc pi = Ok pd ->
+  entry_path (get_hasher Hd o) ld doc pi = Ok pe ->
+  p_parts pd = p_parts pe ->
+  path_mt_entry Hd pd = path_mt_entry Hd pe.
+Proof. exact document_and_stored_keys_agree. Qed.
+Print Assumptions C11_stored_key_agrees.
+
+(* equal parts under different hashers: different keys (concrete pair) — why a resolver must
+   return the options' hasher *)
+Theorem C11_key_depends_on_hasher :
+  exists Hd p q, p_parts p = p_parts q /\ path_mt_entry Hd p <> path_mt_entry Hd q.
+Proof. exact key_depends_on_hasher. Qed.
+Print Assumptions C11_key_depends_on_hasher.
 
 (* the field a dotted path denotes is always one of the document's facts (no hypothesis) *)
 Theorem C11_field_is_fact :
